@@ -66,18 +66,30 @@ def v2name : Bytes := asciiB "tempo_v2"
 def attrsTable (r : SearchReq) : String :=
   "`" ++ r.dbName ++ "`.tempo_traces_attrs_gin" ++ (if r.idxDist then "_dist" else "")
 
+/-- `AndWhere(Eq(key, k), cond(v))` -/
+def tagBase (t : Tag) : List Expr := [eq (.raw "key") (.str t.key), tagCond t.op t.val]
+
+/-- `if s.FromNS > 0 { date >= …; if v2 { timestamp_ns >= FromNS } }` -/
+def fromPart (r : SearchReq) (v2 : Bool) : List Expr :=
+  if r.fromNs > 0 then
+    [ge (.raw "date") (dateOf r.fromNs)] ++ (if v2 then [ge (.raw "timestamp_ns") (.int r.fromNs)] else [])
+  else []
+
+/-- `if s.ToNS > 0 { date <= …; if v2 { timestamp_ns <= ToNS } }` -/
+def toPart (r : SearchReq) (v2 : Bool) : List Expr :=
+  if r.toNs > 0 then
+    [le (.raw "date") (dateOf r.toNs)] ++ (if v2 then [le (.raw "timestamp_ns") (.int r.toNs)] else [])
+  else []
+
+/-- the duration bounds of the index rows (tempo_v2 only) -/
+def durPart (r : SearchReq) (v2 : Bool) : List Expr :=
+  (if r.minDurNs > 0 && v2 then [ge (.raw "duration") (.int r.minDurNs)] else []) ++
+  (if r.maxDurNs > 0 && v2 then [lt (.raw "duration") (.int r.maxDurNs)] else [])
+
 /-- the conjuncts of one `sqlTagRequests[i]`, in the order of the `AndWhere` calls -/
 def tagConds (r : SearchReq) (ver : VersionInfo) (t : Tag) : List Expr :=
   let v2 := isVersionSupported ver v2name r.fromNs
-  [eq (.raw "key") (.str t.key), tagCond t.op t.val] ++
-  (if r.fromNs > 0 then
-    [ge (.raw "date") (dateOf r.fromNs)] ++ (if v2 then [ge (.raw "timestamp_ns") (.int r.fromNs)] else [])
-   else []) ++
-  (if r.toNs > 0 then
-    [le (.raw "date") (dateOf r.toNs)] ++ (if v2 then [le (.raw "timestamp_ns") (.int r.toNs)] else [])
-   else []) ++
-  (if r.minDurNs > 0 && v2 then [ge (.raw "duration") (.int r.minDurNs)] else []) ++
-  (if r.maxDurNs > 0 && v2 then [lt (.raw "duration") (.int r.maxDurNs)] else [])
+  tagBase t ++ fromPart r v2 ++ toPart r v2 ++ durPart r v2
 
 /-- `sqlTagRequests[i]` -/
 def tagSel (r : SearchReq) (ver : VersionInfo) (t : Tag) : Sel :=
@@ -167,12 +179,17 @@ def searchCols : List Expr :=
    .col (.raw "timestamp_ns") "start_time_unix_nano",
    .col (.call "intDiv" [.raw "duration_ns", .int 1000000]) "duration_ms"]
 
-/-- the time and duration conjuncts of `GetTracesQuery` (Go's `/` truncates; the operands are positive here) -/
-def spanConds (r : SearchReq) : List Expr :=
+/-- the time conjuncts of `GetTracesQuery`: `start_time_unix_nano > fromNS`, `<= toNS`, each under its `> 0` guard -/
+def spanTimeConds (r : SearchReq) : List Expr :=
   (if r.fromNs > 0 then [gt (.raw "start_time_unix_nano") (.int r.fromNs)] else []) ++
-  (if r.toNs > 0 then [le (.raw "start_time_unix_nano") (.int r.toNs)] else []) ++
+  (if r.toNs > 0 then [le (.raw "start_time_unix_nano") (.int r.toNs)] else [])
+
+/-- the duration conjuncts (Go's `/` truncates; the operands are positive here) -/
+def spanDurConds (r : SearchReq) : List Expr :=
   (if r.minDurNs > 0 then [gt (.raw "duration_ms") (.int (Int.tdiv r.minDurNs 1000000))] else []) ++
   (if r.maxDurNs > 0 then [le (.raw "duration_ms") (.int (Int.tdiv r.maxDurNs 1000000))] else [])
+
+def spanConds (r : SearchReq) : List Expr := spanTimeConds r ++ spanDurConds r
 
 /-- `TempoService.Search` + `GetTracesQuery`: the statement for a request in a version state -/
 def planSearch (r : SearchReq) (ver : VersionInfo) : SearchStmt :=
